@@ -86,17 +86,32 @@ type Action struct {
 	M      string `json:"m,omitempty"`
 }
 
+// Statement kinds:
+//
+//	""       /PATTERN/ { Acts } [else { Else }]
+//	"uncond" Acts at the top level, outside any block
+//	"sc"     /^(?P<vI>.*)$/ { $vI == "Lit" || PI { Acts } }   with  const PI /^Tag (?P<xI>\S+)$/
+//	         (in Acts, "strp" reads $xI; on the line Lit the pattern is not evaluated)
 type Stmt struct {
+	Kind string   `json:"kind,omitempty"`
 	Tag  string   `json:"tag"`
 	Arg  int      `json:"arg"`
+	Lit  string   `json:"lit,omitempty"`
 	Acts []Action `json:"acts"`
+	Else []Action `json:"else,omitempty"`
 }
 
 type Prog struct {
 	Stmts []Stmt `json:"stmts"`
+	// Caps: derive events that go through the model's match table
+	// (EMatch / ECapref / EStrptimeTop) instead of inlining captured values.
+	Caps bool `json:"caps,omitempty"`
 }
 
 func (s Stmt) Pattern() string {
+	if s.Kind == "sc" {
+		return "^" + s.Tag + " (\\S+)$" // the const pattern, groups unnamed for the harness
+	}
 	switch s.Arg {
 	case ArgStr:
 		return "^" + s.Tag + " (.*)$"
@@ -112,7 +127,7 @@ func (p Prog) Metrics() []string {
 	seen := map[string]bool{}
 	var gs, cs []string
 	for _, s := range p.Stmts {
-		for _, a := range s.Acts {
+		for _, a := range append(append([]Action{}, s.Acts...), s.Else...) {
 			if a.M == "" || seen[a.M] {
 				continue
 			}
@@ -131,7 +146,7 @@ func (p Prog) Source() string {
 	var b strings.Builder
 	seenC := map[string]bool{}
 	for _, s := range p.Stmts {
-		for _, a := range s.Acts {
+		for _, a := range append(append([]Action{}, s.Acts...), s.Else...) {
 			if a.K == "inc" {
 				seenC[a.M] = true
 			}
@@ -144,33 +159,58 @@ func (p Prog) Source() string {
 			fmt.Fprintf(&b, "gauge %s\n", m)
 		}
 	}
-	for _, s := range p.Stmts {
-		fmt.Fprintf(&b, "/%s/ {\n", strings.ReplaceAll(s.Pattern(), "/", "\\/"))
-		for _, a := range s.Acts {
+	for i, s := range p.Stmts {
+		if s.Kind == "sc" {
+			fmt.Fprintf(&b, "const P%d /^%s (?P<x%d>\\S+)$/\n", i, s.Tag, i)
+		}
+	}
+	acts := func(ind string, i int, s Stmt, as []Action) {
+		for _, a := range as {
 			switch a.K {
 			case "strp":
-				fmt.Fprintf(&b, "  strptime($1, %s)\n", mtailStr(a.Layout))
+				if s.Kind == "sc" {
+					fmt.Fprintf(&b, "%sstrptime($x%d, %s)\n", ind, i, mtailStr(a.Layout))
+				} else {
+					fmt.Fprintf(&b, "%sstrptime($1, %s)\n", ind, mtailStr(a.Layout))
+				}
 			case "strpc":
-				fmt.Fprintf(&b, "  strptime(%s, %s)\n", mtailStr(a.Const), mtailStr(a.Layout))
+				fmt.Fprintf(&b, "%sstrptime(%s, %s)\n", ind, mtailStr(a.Const), mtailStr(a.Layout))
 			case "sett":
 				if s.Arg == ArgInt {
-					b.WriteString("  settime($1)\n")
+					b.WriteString(ind + "settime($1)\n")
 				} else {
-					b.WriteString("  settime(int($1))\n")
+					b.WriteString(ind + "settime(int($1))\n")
 				}
 			case "settc":
-				fmt.Fprintf(&b, "  settime(%d)\n", a.N)
+				fmt.Fprintf(&b, "%ssettime(%d)\n", ind, a.N)
 			case "gts":
-				fmt.Fprintf(&b, "  %s = timestamp()\n", a.M)
+				fmt.Fprintf(&b, "%s%s = timestamp()\n", ind, a.M)
 			case "inc":
-				fmt.Fprintf(&b, "  %s++\n", a.M)
+				fmt.Fprintf(&b, "%s%s++\n", ind, a.M)
 			case "conv":
-				fmt.Fprintf(&b, "  %s = int($1)\n", a.M)
+				fmt.Fprintf(&b, "%s%s = int($1)\n", ind, a.M)
 			case "stop":
-				b.WriteString("  stop\n")
+				b.WriteString(ind + "stop\n")
 			}
 		}
-		b.WriteString("}\n")
+	}
+	for i, s := range p.Stmts {
+		switch s.Kind {
+		case "uncond":
+			acts("", i, s, s.Acts)
+		case "sc":
+			fmt.Fprintf(&b, "/^(?P<v%d>.*)$/ {\n  $v%d == %s || P%d {\n", i, i, mtailStr(s.Lit), i)
+			acts("    ", i, s, s.Acts)
+			b.WriteString("  }\n}\n")
+		default:
+			fmt.Fprintf(&b, "/%s/ {\n", strings.ReplaceAll(s.Pattern(), "/", "\\/"))
+			acts("  ", i, s, s.Acts)
+			if len(s.Else) > 0 {
+				b.WriteString("} else {\n")
+				acts("  ", i, s, s.Else)
+			}
+			b.WriteString("}\n")
+		}
 	}
 	return b.String()
 }
@@ -180,11 +220,15 @@ func mtailStr(s string) string { return "\"" + s + "\"" } // generated strings c
 // ---- events ----
 
 type Event struct {
-	K      string `json:"k"` // strp sett ts push set inc fail stop
-	Layout string `json:"layout,omitempty"`
-	Value  string `json:"value,omitempty"`
-	N      int64  `json:"n,omitempty"`
-	M      int    `json:"m,omitempty"`
+	K      string   `json:"k"` // strp sett ts push set inc fail stop | match cap strptop
+	Layout string   `json:"layout,omitempty"`
+	Value  string   `json:"value,omitempty"`
+	N      int64    `json:"n,omitempty"`
+	M      int      `json:"m,omitempty"`
+	Re     int      `json:"re,omitempty"`     // match, cap: slot of the match table
+	Group  int      `json:"group,omitempty"`  // cap
+	Hit    bool     `json:"hit,omitempty"`    // match
+	Groups []string `json:"groups,omitempty"` // match
 }
 
 // Events is the sequence of time-relevant events the program performs on the
@@ -195,19 +239,20 @@ func (p Prog) Events(line string) []Event {
 		idx[m] = i
 	}
 	var evs []Event
-	for _, s := range p.Stmts {
-		m := regexp.MustCompile(s.Pattern()).FindStringSubmatch(line)
-		if m == nil {
-			continue
-		}
-		arg := ""
-		if len(m) > 1 {
-			arg = m[1]
-		}
-		for _, a := range s.Acts {
+	// capRe: the table slot $1 / $xI refers to; arg, have: what the harness's own
+	// regexp evaluation on THIS line gives for it
+	emit := func(s Stmt, as []Action, capRe int, arg string, have bool) {
+		for _, a := range as {
 			switch a.K {
 			case "strp":
-				evs = append(evs, Event{K: "strp", Layout: a.Layout, Value: arg})
+				switch {
+				case p.Caps:
+					evs = append(evs, Event{K: "cap", Re: capRe, Group: 1}, Event{K: "strptop", Layout: a.Layout})
+				case have:
+					evs = append(evs, Event{K: "strp", Layout: a.Layout, Value: arg})
+				default:
+					evs = append(evs, Event{K: "fail"}) // capture group of a pattern not evaluated on this line
+				}
 			case "strpc":
 				evs = append(evs, Event{K: "strp", Layout: a.Layout, Value: a.Const})
 			case "sett":
@@ -233,6 +278,40 @@ func (p Prog) Events(line string) []Event {
 			case "stop":
 				evs = append(evs, Event{K: "stop"})
 			}
+		}
+	}
+	match := func(re int, m []string) {
+		if p.Caps {
+			evs = append(evs, Event{K: "match", Re: re, Hit: m != nil, Groups: m})
+		}
+	}
+	for i, s := range p.Stmts {
+		switch s.Kind {
+		case "uncond":
+			emit(s, s.Acts, 0, "", false)
+		case "sc":
+			match(2*i, []string{line, line}) // /^(?P<v>.*)$/ matches every line
+			if line == s.Lit {
+				emit(s, s.Acts, 2*i+1, "", false) // short circuit: PI is not evaluated
+				continue
+			}
+			m := regexp.MustCompile(s.Pattern()).FindStringSubmatch(line)
+			match(2*i+1, m)
+			if m != nil {
+				emit(s, s.Acts, 2*i+1, m[1], true)
+			}
+		default:
+			m := regexp.MustCompile(s.Pattern()).FindStringSubmatch(line)
+			match(2*i, m)
+			if m == nil {
+				emit(s, s.Else, 2*i, "", false)
+				continue
+			}
+			arg := ""
+			if len(m) > 1 {
+				arg = m[1]
+			}
+			emit(s, s.Acts, 2*i, arg, true)
 		}
 	}
 	return evs
@@ -403,19 +482,38 @@ func YearNow(loc *time.Location) int {
 func Table(loc *time.Location, year int, lines [][]Event) []Row {
 	seen := map[[2]string]bool{}
 	var rows []Row
+	add := func(layout, value string) {
+		if seen[[2]string{layout, value}] {
+			return
+		}
+		seen[[2]string{layout, value}] = true
+		tm, err := ParseAs(loc, layout, value)
+		if err != nil {
+			rows = append(rows, Row{Layout: layout, Value: value})
+			return
+		}
+		rows = append(rows, Row{Layout: layout, Value: value, OK: true, Ns: bigNs(tm).String(),
+			Year: tm.Year(), AdjNs: bigNs(tm.AddDate(year, 0, 0)).String()})
+	}
 	for _, evs := range lines {
+		tab := map[int][]string{} // the match table of this line
+		var strs []string
 		for _, e := range evs {
-			if e.K != "strp" || seen[[2]string{e.Layout, e.Value}] {
-				continue
+			switch e.K {
+			case "strp":
+				add(e.Layout, e.Value)
+			case "match":
+				tab[e.Re] = e.Groups
+			case "cap":
+				if g := tab[e.Re]; len(g) > e.Group {
+					strs = append(strs, g[e.Group])
+				}
+			case "strptop":
+				if len(strs) > 0 {
+					add(e.Layout, strs[len(strs)-1])
+					strs = strs[:len(strs)-1]
+				}
 			}
-			seen[[2]string{e.Layout, e.Value}] = true
-			tm, err := ParseAs(loc, e.Layout, e.Value)
-			if err != nil {
-				rows = append(rows, Row{Layout: e.Layout, Value: e.Value})
-				continue
-			}
-			rows = append(rows, Row{Layout: e.Layout, Value: e.Value, OK: true, Ns: bigNs(tm).String(),
-				Year: tm.Year(), AdjNs: bigNs(tm.AddDate(year, 0, 0)).String()})
 		}
 	}
 	return rows
@@ -479,6 +577,19 @@ func coqEvent(e Event) string {
 		return "EFail"
 	case "stop":
 		return "EStop"
+	case "match":
+		if !e.Hit {
+			return vlib.App("EMatch", vlib.N(uint64(e.Re)), "None")
+		}
+		gs := make([]string, len(e.Groups))
+		for i, g := range e.Groups {
+			gs[i] = coqStr(g)
+		}
+		return vlib.App("EMatch", vlib.N(uint64(e.Re)), vlib.Some(vlib.List(gs)))
+	case "cap":
+		return vlib.App("ECapref", vlib.N(uint64(e.Re)), vlib.Nat(e.Group))
+	case "strptop":
+		return vlib.App("EStrptimeTop", coqStr(e.Layout))
 	}
 	panic("event " + e.K)
 }
@@ -523,6 +634,10 @@ func (c Case) Coq(id uint64) string {
 type Weights struct {
 	Strp, Strpc, Sett, Settc, Gts, Inc, Conv, Stop int
 	TwoLayouts                                     int // percent: a statement parses $1 under two layouts
+	SC                                             int // percent: a statement is `cmp || CONST_PATTERN { ...$x... }`
+	TailElse                                       int // percent: the program ends in `else { ...; stop | failing strptime }`
+	TailUncond                                     int // percent: ... or in a bare top-level stop / failing strptime
+	HeadUncond                                     int // percent: the program starts with a top-level counter++
 }
 
 var gauges = []string{"g0", "g1", "g2", "g3"}
@@ -559,6 +674,23 @@ func GenProg(r *vlib.Rand, w Weights) Prog {
 			s.Arg = ArgInt
 		default:
 			s.Arg = ArgNone
+		}
+		if r.Chance(w.SC) {
+			// `$v == "bI" || PI { c++; strptime($xI, L); g = timestamp(); ... }`
+			li := 1 + r.Intn(len(Layouts)-1) // a layout whose values hold no space (\S+)
+			for strings.Contains(Layouts[li], " ") {
+				li = 1 + r.Intn(len(Layouts)-1)
+			}
+			sc := Stmt{Kind: "sc", Tag: fmt.Sprintf("K%d", i), Lit: fmt.Sprintf("b%d", i)}
+			if r.Chance(70) {
+				sc.Acts = append(sc.Acts, Action{K: "inc", M: vlib.Pick(r, counters)})
+			}
+			sc.Acts = append(sc.Acts, Action{K: "strp", Layout: Layouts[li]}, Action{K: "gts", M: vlib.Pick(r, gauges)})
+			if r.Chance(50) {
+				sc.Acts = append(sc.Acts, Action{K: "inc", M: vlib.Pick(r, counters)})
+			}
+			p.Stmts = append(p.Stmts, sc)
+			continue
 		}
 		if s.Arg == ArgStr && r.Chance(w.TwoLayouts) {
 			la, lb := vlib.Pick(r, Layouts), vlib.Pick(r, Layouts)
@@ -609,10 +741,40 @@ func GenProg(r *vlib.Rand, w Weights) Prog {
 		p.Stmts = append(p.Stmts, s)
 	}
 	// a program must declare at least one metric and read the clock somewhere
-	p.Stmts = append(p.Stmts, Stmt{Tag: vlib.Pick(r, tags), Arg: ArgNone,
-		Acts: []Action{{K: "gts", M: vlib.Pick(r, gauges)}, {K: "inc", M: vlib.Pick(r, counters)}}})
-	// a metric is a counter iff it is incremented somewhere: keep the name
-	// spaces apart so that no name is both (they are, by construction)
+	last := Stmt{Tag: vlib.Pick(r, tags), Arg: ArgNone,
+		Acts: []Action{{K: "gts", M: vlib.Pick(r, gauges)}, {K: "inc", M: vlib.Pick(r, counters)}}}
+	// the instruction that ends the line can be the LAST instruction of the
+	// program: an else branch has no trailer after its last statement
+	terminator := func() []Action {
+		var as []Action
+		if r.Chance(60) {
+			as = append(as, Action{K: "inc", M: vlib.Pick(r, counters)})
+		}
+		if r.Bool() {
+			return append(as, Action{K: "stop"})
+		}
+		return append(as, Action{K: "strpc", Layout: "2006-01-02", Const: vlib.Pick(r, BadValues)})
+	}
+	x := r.Intn(100)
+	switch {
+	case x < w.TailElse:
+		last.Else = terminator()
+		p.Stmts = append(p.Stmts, last)
+	case x < w.TailElse+w.TailUncond:
+		p.Stmts = append(p.Stmts, last, Stmt{Kind: "uncond", Acts: terminator()})
+	default:
+		p.Stmts = append(p.Stmts, last)
+	}
+	if r.Chance(w.HeadUncond) {
+		p.Stmts = append([]Stmt{{Kind: "uncond", Acts: []Action{{K: "inc", M: vlib.Pick(r, counters)}}}}, p.Stmts...)
+		// statement indices name the sc constants: renumber
+		for i := range p.Stmts {
+			if p.Stmts[i].Kind == "sc" {
+				p.Stmts[i].Tag = fmt.Sprintf("K%d", i)
+				p.Stmts[i].Lit = fmt.Sprintf("b%d", i)
+			}
+		}
+	}
 	return p
 }
 
@@ -621,6 +783,28 @@ func GenProg(r *vlib.Rand, w Weights) Prog {
 func LinePool(r *vlib.Rand, p Prog) []string {
 	var pool []string
 	for _, s := range p.Stmts {
+		if s.Kind == "uncond" {
+			continue
+		}
+		if s.Kind == "sc" {
+			for _, a := range s.Acts {
+				if a.K != "strp" {
+					continue
+				}
+				for li, l := range Layouts {
+					if l == a.Layout {
+						for k := 0; k < 2; k++ {
+							v := vlib.Pick(r, GoodValues[li])
+							if !strings.Contains(v, " ") {
+								pool = append(pool, s.Tag+" "+v)
+							}
+						}
+					}
+				}
+			}
+			pool = append(pool, s.Tag+" bogus", s.Lit, s.Lit)
+			continue
+		}
 		switch s.Arg {
 		case ArgNone:
 			pool = append(pool, s.Tag)
